@@ -214,9 +214,13 @@ func (k Keeper) EscrowReporterStake(ctx context.Context, reporterAddr sdk.AccAdd
 			if err != nil {
 				return err
 			}
-			_, err = k.undelegate(ctx, delAddr, dstVAl, math.LegacyNewDecFromInt(remaining))
+			notFound, err := k.undelegate(ctx, delAddr, dstVAl, math.LegacyNewDecFromInt(remaining))
 			if err != nil {
 				return err
+			}
+			// the record below and the dispute's accounting assume the whole amount was escrowed
+			if !notFound.IsZero() {
+				return errors.New("reporter stake to be escrowed not found at the redelegation destination")
 			}
 			disputeTokens = append(disputeTokens, &types.TokenOriginInfo{
 				DelegatorAddress: del.DelegatorAddress,
